@@ -1,5 +1,6 @@
 #!/usr/bin/env python3
-"""seed_setup.py ID...  — scratch worktree + task file for a seeded-breakage sub-agent (nothing from /verif but the property text)."""
+"""seed_setup.py [--round2] ID...  — scratch worktree + task file for a seeded-breakage sub-agent (nothing from /verif but
+the property text; in round 2 also one-line summaries of the changes already produced, so that new ones differ)."""
 import json, subprocess, sys, os
 props = {json.loads(l)['id']: json.loads(l) for l in open('/verif/properties.jsonl')}
 T = '''# Task: create realistic seeded regressions in the Rust crate `calamine`
@@ -37,11 +38,24 @@ Verify each yourself: demo on the clean tree (holds), apply patch, build, full t
 ## Finish
 Leave `{wt}/repo` clean (`git checkout -- . && git clean -fdq examples` as needed) and reply with a short summary of each mutation (what, where, trigger). Do not delete `{wt}/out`.
 '''
-for pid in sys.argv[1:]:
+args = sys.argv[1:]
+round2 = '--round2' in args
+args = [a for a in args if not a.startswith('--')]
+for pid in args:
     p = props[pid]
-    wt = f'/tmp/wt/{pid}'
+    wt = f'/tmp/wt2/{pid}' if round2 else f'/tmp/wt/{pid}'
     os.makedirs(wt + '/out', exist_ok=True)
     if not os.path.exists(wt + '/repo'):
         subprocess.check_call(['git', '-C', '/repo', 'worktree', 'add', '--detach', wt + '/repo', 'HEAD'], stdout=subprocess.DEVNULL)
-    open(wt + '/TASK.md', 'w').write(T.format(wt=wt, pid=pid, title=p['title'], statement=p['statement'], quant=p['quantifier']['text']))
+    text = T.format(wt=wt, pid=pid, title=p['title'], statement=p['statement'], quant=p['quantifier']['text'])
+    if round2:
+        import glob
+        used = []
+        for m in sorted(glob.glob(f'/verif/seeded/{pid}-m*/meta.json')):
+            try:
+                j = json.load(open(m)); used.append(f"- {j.get('summary','')} (trigger: {j.get('trigger','')})")
+            except Exception:
+                pass
+        text = text.replace('## Deliverables, per mutation', '## Ideas already used (produce different ones: other functions, other mechanisms, other parts of the property)\n' + '\n'.join(used) + '\n\nName your mutations `m4`, `m5`, `m6` (directories `out/m4` ...).\n\n## Deliverables, per mutation')
+    open(wt + '/TASK.md', 'w').write(text)
     print('ready', wt)
